@@ -80,7 +80,7 @@ def big_value(rng, kind, n, parts):
             return ["set", "str", [["str", s] for s in sizes]]
         return ["list", k, [[k, s] for s in sizes]]
     if kind == "list_i32":
-        return ["list", "i32", [["i32", i] for i in range(max(0, n // 4))]]
+        return ["list", "i32", [["i32", i] for i in range(min(1500, max(0, n // 4)))]]
     if kind == "map":
         sizes = split_sizes(rng, n, 2 * max(1, parts // 2))
         return ["map", "str", "bin", [[["str", sizes[2 * i]], ["bin", sizes[2 * i + 1]]] for i in range(len(sizes) // 2)]]
@@ -415,7 +415,7 @@ def plan(ctx):
     quick = ctx.tier == "quick"
     shapes = []
     targets = [16, 64, 1000, 65536] if quick else [16, 64, 300, 1000, 5000, 65536, 300000]
-    n_shapes = 30 if quick else 260
+    n_shapes = 48 if quick else 260
     for i in range(n_shapes):
         kind = BIG_KINDS[i % len(BIG_KINDS)]
         pos = POSITIONS[(i // len(BIG_KINDS) + i) % 3]
@@ -428,14 +428,69 @@ def plan(ctx):
     return shapes
 
 
+def evaluate(ctx, all_cases, all_resps):
+    """oracle + judge on (case, observation) pairs; records violations; returns (whys, verdicts, mism)"""
+    whys = []
+    for c, r in zip(all_cases, all_resps):
+        if c["kind"] == "buf":
+            why = oracle_buf(c, r)
+        elif c["kind"] == "call":
+            why = oracle_call(c, r)
+        elif c["kind"] == "pub":
+            why = oracle_pub(c, r)
+        else:
+            why = None if r.get("consts") else "constants not reported: %s" % r.get("msg")
+        whys.append(why)
+        if why:
+            ctx.violation("C12 oracle: " + why, replay_of(c, r))
+    jc = []
+    for c, r in zip(all_cases, all_resps):
+        if c["kind"] == "buf":
+            jc.append(judge_buf(c, r))
+        elif c["kind"] == "call":
+            jc.append(judge_call(c, r))
+        elif c["kind"] == "pub":
+            jc.append(judge_pub(c, r))
+        else:
+            jc.append([4] + list(r.get("consts") or [0] * 8))
+    verdicts = vlib.run_judge(ctx.rundir, "JSizeLimit", "judge", jc)
+    mism = [i for i, v in enumerate(verdicts) if v < 0]
+    for i in mism:
+        if not whys[i]:
+            rep = replay_of(all_cases[i], all_resps[i])
+            rep["no_failing_input_found"] = True
+            rep["broken"] = ("correspondence JSizeLimit.judge: Model/SizeLimit.v (theorems of Props/C12.v) does not reproduce "
+                             "what the implementation did on this input")
+            ctx.violation("C12 correspondence: model and implementation disagree", rep)
+    return whys, verdicts, mism
+
+
+def run_replay(ctx, rep):
+    """python3 tools/check.py C12 --replay <file>: run the recorded request again on the current tree"""
+    r = rep.get("replay", rep)
+    req = r.get("request")
+    if not isinstance(req, dict) or "op" not in req:
+        raise RuntimeError("replay file holds no harness request (broken: %s)" % r.get("broken"))
+    case = {"kind": r.get("kind") or {"buf": "buf", "call": "call", "pub": "pub"}.get(req["op"], "consts"),
+            "req": req, "meta": r.get("meta") or {}}
+    resps = run_harness([req])
+    whys, verdicts, mism = evaluate(ctx, [case], resps)
+    return {"evaluations": 1, "distinct_nontrivial": 1, "rule": "replay of one recorded request",
+            "traces_validated_against_impl": len([v for v in verdicts if v >= 0]),
+            "oracle_failures": len([w for w in whys if w]), "judge_mismatches": len(mism),
+            "samples": [replay_of(case, resps[0], brief=True)]}
+
+
 def run(ctx, br):
+    if getattr(ctx, "replaying", None):
+        return run_replay(ctx, ctx.replaying)
     rng = ctx.rng
     quick = ctx.tier == "quick"
     cases = []          # dicts {kind, req, meta}
     # --- constants
     cases.append({"kind": "consts", "req": {"op": "consts"}})
     # --- buffer traces
-    cases += gen_buf_cases(rng, 240 if quick else 6000)
+    cases += gen_buf_cases(rng, 400 if quick else 4000)
 
     # --- round 1: probes
     shapes = plan(ctx)
@@ -451,13 +506,16 @@ def run(ctx, br):
                        "req": pub_req("stomp", s["proto"], args)})
     # NATS probes: large part just under 1 MiB so that varint / digit counts are already right
     nats_shapes = []
-    n_nats = 9 if quick else 60
+    n_nats = 12 if quick else 60
     for i in range(n_nats):
         kind = ["str", "bin", "list_str", "map", "struct", "list_bin", "set_str"][i % 7]
         pos = POSITIONS[i % 3]
         proto = PROTOS[(i // 3 + i) % 3]
         parts = rng.choice([1, 2, 5])
-        s = {"kind": kind, "pos": pos, "proto": proto, "n": MIB - 4000, "parts": parts}
+        # JSON writes binaries as base64: 4 output bytes per 3
+        n0 = (MIB - 4000) * 3 // 4 - 100 if (proto == "json" and kind in ("bin", "list_bin")) else \
+            (MIB - 4000) * 6 // 7 - 100 if (proto == "json" and kind in ("map", "struct")) else MIB - 4000
+        s = {"kind": kind, "pos": pos, "proto": proto, "n": n0, "parts": parts}
         s["args"] = shaped_struct(rng, kind, pos, s["n"], parts)
         s["reply"] = shaped_struct(rng, kind, pos, s["n"], parts, result=True)
         nats_shapes.append(s)
@@ -553,42 +611,8 @@ def run(ctx, br):
     all_cases = probes + cases + main
     all_resps = presps + resps
 
-    # --- oracle
-    oracle_fail = 0
-    whys = []
-    for c, r in zip(all_cases, all_resps):
-        if c["kind"] == "buf":
-            why = oracle_buf(c, r)
-        elif c["kind"] == "call":
-            why = oracle_call(c, r)
-        elif c["kind"] == "pub":
-            why = oracle_pub(c, r)
-        else:
-            why = None if r.get("consts") else "constants not reported: %s" % r.get("msg")
-        whys.append(why)
-        if why:
-            oracle_fail += 1
-            ctx.violation("C12 oracle: " + why, replay_of(c, r))
-    # --- judge
-    jc = []
-    for c, r in zip(all_cases, all_resps):
-        if c["kind"] == "buf":
-            jc.append(judge_buf(c, r))
-        elif c["kind"] == "call":
-            jc.append(judge_call(c, r))
-        elif c["kind"] == "pub":
-            jc.append(judge_pub(c, r))
-        else:
-            jc.append([4] + list(r.get("consts") or [0] * 8))
-    verdicts = vlib.run_judge(ctx.rundir, "JSizeLimit", "judge", jc)
-    mism = [i for i, v in enumerate(verdicts) if v < 0]
-    for i in mism:
-        if not whys[i]:
-            rep = replay_of(all_cases[i], all_resps[i])
-            rep["no_failing_input_found"] = True
-            rep["broken"] = ("correspondence JSizeLimit.judge: Model/SizeLimit.v (theorems of Props/C12.v) does not reproduce "
-                             "what the implementation did on this input")
-            ctx.violation("C12 correspondence: model and implementation disagree", rep)
+    whys, verdicts, mism = evaluate(ctx, all_cases, all_resps)
+    oracle_fail = len([w for w in whys if w])
 
     # --- coverage
     hist, tags, near = {}, {}, set()
